@@ -332,6 +332,39 @@ def w_F12a():
         t.graph.number_of_nodes(), t.graph.number_of_edges())
 
 
+def w_F12d():
+    """an unrelated column literally called "id" (with repeated values) must not make a well-formed table fail"""
+    import pandas as pd
+    from funtracks.import_export import tracks_from_df
+
+    df = pd.DataFrame({"cell": [1, 2, 5], "id": [7, 7, 7], "mother": [-1, 1, 1], "frame": [0, 1, 1],
+                       "y": [1.0, 2.0, 3.0], "x": [1.0, 2.0, 3.0]})
+    nm = {"id": "cell", "parent_id": "mother", "time": "frame", "pos": ["y", "x"]}
+    try:
+        t = tracks_from_df(df, node_name_map=nm)
+    except Exception as e:  # noqa: BLE001
+        return False, "well-formed table with an unrelated raw 'id' column rejected: %s: %s" % (type(e).__name__, str(e)[:70])
+    return sorted(t.graph.nodes) == [1, 2, 5] and sorted(t.graph.edges) == [(1, 2), (1, 5)], "nodes %s edges %s" % (
+        sorted(t.graph.nodes), sorted(t.graph.edges))
+
+
+def w_F12c():
+    """a parent that is not among the (non-integer) ids must be rejected, not silently dropped"""
+    import pandas as pd
+    from funtracks.import_export import tracks_from_df
+
+    df = pd.DataFrame({"cell": ["a", "b", "c"], "mother": [None, "a", "zz"], "frame": [0, 1, 1],
+                       "y": [1.0, 2.0, 3.0], "x": [1.0, 2.0, 3.0]})
+    nm = {"id": "cell", "parent_id": "mother", "time": "frame", "pos": ["y", "x"]}
+    try:
+        t = tracks_from_df(df, node_name_map=nm)
+    except ValueError:
+        return True, "rejected with ValueError"
+    except Exception as e:  # noqa: BLE001
+        return False, "raised %s instead of ValueError" % type(e).__name__
+    return False, "link to unknown node 'zz' accepted: edges %s" % sorted(t.graph.edges)
+
+
 # ----------------------------------------------------------------------------- C14 / C01
 def w_F14a_roundtrip():
     from funtracks.data_model import SolutionTracks
@@ -498,6 +531,8 @@ WITNESSES = {
     "F-11b": (["C11"], w_F11b),
     "F-11c": (["C11"], w_F11c),
     "F-12a": (["C12"], w_F12a),
+    "F-12c": (["C12"], w_F12c),
+    "F-12d": (["C12"], w_F12d),
     "F-13a": (["C13"], w_F13a),
     "F-13a-stray-only": (["C13"], w_F13a_stray_only),
     "F-14a-roundtrip": (["C14"], w_F14a_roundtrip),
